@@ -10,6 +10,8 @@ import (
 	"sync"
 	"sync/atomic"
 
+	"go.dedis.ch/kyber/v4"
+
 	"verif/internal/gen"
 	"verif/internal/mon"
 )
@@ -108,6 +110,118 @@ func (c *c16c) altered(op, class, desc string, pt []byte, err error, orig []byte
 	kv = append(kv, "alteration", desc, "returned", mon.Hex(pt), "original", mon.Hex(orig))
 	c.r.Violation(c.key(op, class+"/"+what),
 		fmt.Sprintf("%s %s: %s did not return an error for %s (%s)", c.scheme, c.inst, op, class, what), c.det(kv...))
+}
+
+// ---- inputs intact -----------------------------------------------------------
+
+// c16snap holds deep copies (byte images) of the input objects of one call,
+// taken before the call, and the getters that re-read the same objects after it.
+type c16snap struct {
+	names  []string
+	get    []func() []byte
+	before [][]byte
+}
+
+func c16Snap() *c16snap { return &c16snap{} }
+
+// add registers an input object; get must read the object as the caller sees it.
+func (s *c16snap) add(name string, get func() []byte) *c16snap {
+	s.names = append(s.names, name)
+	s.get = append(s.get, get)
+	s.before = append(s.before, append([]byte(nil), get()...))
+	return s
+}
+
+// c16S reads a byte-slice variable (so a re-assigned struct field is seen too).
+func c16S(b *[]byte) func() []byte { return func() []byte { return *b } }
+
+// c16P reads a point / scalar through its encoding.
+func c16P(m kyber.Marshaling) func() []byte { return func() []byte { return c16Enc(m) } }
+
+// c16Ps reads a list of points.
+func c16Ps(ps []kyber.Point) func() []byte {
+	return func() []byte {
+		var out []byte
+		for _, p := range ps {
+			out = append(out, c16Enc(p)...)
+		}
+		return out
+	}
+}
+
+// intact judges "every input object is byte-identical to its deep copy taken
+// before the call" (one judgement per call, also for calls that returned an error).
+func (c *c16c) intact(s *c16snap, op, class string, failed bool, kv ...any) {
+	out := "call-succeeded"
+	if failed {
+		out = "call-failed"
+	}
+	c.eval("inputs-intact/"+op+"/"+out, class+fmt.Sprint(kv...), true)
+	for i, g := range s.get {
+		after := g()
+		if bytes.Equal(after, s.before[i]) {
+			continue
+		}
+		first := 0
+		for first < len(after) && first < len(s.before[i]) && after[first] == s.before[i][first] {
+			first++
+		}
+		d := c.det(kv...)
+		d["input"], d["call_class"], d["outcome"] = s.names[i], class, out
+		d["before"], d["after"], d["first_differing_byte"] = c16HexCap(s.before[i]), c16HexCap(after), first
+		c.r.Violation("C16/"+c.scheme+"/"+op+"/input-mutated/"+s.names[i],
+			fmt.Sprintf("%s %s overwrote its input %q (the caller's object differs from the deep copy taken before the call)", c.scheme, op, s.names[i]), d)
+	}
+}
+
+// repeat judges "decrypting the same ciphertext object again returns the same
+// plaintext": good() decrypts the one shared object with the right key, bad()
+// (optional) makes a failing attempt with a wrong key on the same object, ser()
+// serialises the object for the clear-text scan after decryption.
+func (c *c16c) repeat(op string, msg []byte, scan bool, good func() ([]byte, error), bad func() ([]byte, error), ser func() []byte) {
+	var p1, p2, p3 []byte
+	var e1, e2, e3 error
+	if !c.call(op, "repeat/first", func() { p1, e1 = good() }) || e1 != nil || !bytes.Equal(p1, msg) {
+		return // the round-trip judgement has already reported this
+	}
+	if scan {
+		after := ser()
+		kind, po, co := c16Scan(msg, after)
+		c.eval("scan-after-decryption", "scan", len(msg) >= 8)
+		if kind != "" {
+			c.r.Violation("C16/"+c.scheme+"/"+op+"/plaintext-in-clear-after-decryption",
+				fmt.Sprintf("%s: after %s the caller's ciphertext object contains plaintext in the clear (%s)", c.scheme, op, kind),
+				c.det("pt_off", po, "ct_off", co, "run", c16RunLen(msg, after, po, co), "ciphertext_object_after", c16HexCap(after)))
+		}
+	}
+	var objBefore []byte // the ciphertext object as it was handed to the call being judged
+	judge := func(which string, p []byte, e error) {
+		c.eval("repeat/"+which, which, true)
+		if e != nil {
+			c.r.Violation("C16/"+c.scheme+"/"+op+"/repeat/"+which+"-fails",
+				fmt.Sprintf("%s: the %s decryption of the same ciphertext object with the right key failed (%v) although the first one returned the message", c.scheme, which, e),
+				c.det("error", e.Error(), "ciphertext_object_handed_to_this_call", c16HexCap(objBefore), "ciphertext_object_after_this_call", c16HexCap(ser())))
+		} else if !bytes.Equal(p, msg) {
+			c.r.Violation("C16/"+c.scheme+"/"+op+"/repeat/"+which+"-differs",
+				fmt.Sprintf("%s: the %s decryption of the same ciphertext object returned a different plaintext", c.scheme, which),
+				c.det("returned", c16HexCap(p), "ciphertext_object_handed_to_this_call", c16HexCap(objBefore), "ciphertext_object_after_this_call", c16HexCap(ser())))
+		}
+		if !bytes.Equal(p1, msg) {
+			c.r.Violation("C16/"+c.scheme+"/"+op+"/repeat/earlier-result-overwritten",
+				fmt.Sprintf("%s: the plaintext returned by the first decryption was changed by a later %s call on the same object", c.scheme, op), c.det("first_result_now", c16HexCap(p1)))
+		}
+	}
+	objBefore = append([]byte(nil), ser()...)
+	if c.call(op, "repeat/second", func() { p2, e2 = good() }) {
+		judge("second", p2, e2)
+	}
+	if bad != nil {
+		c.call(op, "repeat/wrong-key-attempt", func() { _, _ = bad() })
+	}
+	objBefore = append([]byte(nil), ser()...)
+	if c.call(op, "repeat/third", func() { p3, e3 = good() }) {
+		judge("third-after-failed-attempt", p3, e3)
+	}
 }
 
 // c16Scan looks for plaintext in the clear: a 16-byte aligned block of pt
@@ -277,7 +391,7 @@ func c16HexCap(b []byte) string {
 }
 
 func c16(r *mon.R) {
-	r.SetRule("per scheme instance (ECIES on ed25519/edvartime/edvartime-full/p256/qr512 with hash nil|sha256|sha512; IBE-CCA on G1 and on G2, IBE-CPA on G1 for every pairing suite whose identity group is hashable; anon-set on ed25519/edvartime/p256 with 1..6 recipients and every recipient index) and per message length (quick: 0,1,15,16,17,31,32,33,63,64,65,255,256,1023,4096; thorough: 0..4096 stepped; IBE: 0..hash size densely and beyond): encrypt with the real API, then judge (1) round trip = exact message, or refusal at encryption time only for lengths the scheme cannot protect; (2) decryption with every wrong-key class must error (authenticated schemes); (3) every chosen single-bit flip (stratified per region: ephemeral point / header slots / body / tag; U,V,W; all bits for short ciphertexts in thorough) and every chosen truncation must error, never return a plaintext, never panic; anon-set additionally body alteration with the tag recomputed from public data; (4) clear-text scan: no 16-byte aligned block and no >=8-byte run of a high-entropy plaintext occurs in the serialised ciphertext. distinct = (scheme, instance, length, repetition, check descriptor). non-trivial = every judgement except: scans of plaintexts shorter than 8 bytes, and IBE-CCA wrong-key trials on messages of < 4 bytes (sigma has only len(msg) bytes, see notes)")
+	r.SetRule("per scheme instance (ECIES on ed25519/edvartime/edvartime-full/p256/qr512 with hash nil|sha256|sha512; IBE-CCA on G1 and on G2, IBE-CPA on G1 for every pairing suite whose identity group is hashable; anon-set on ed25519/edvartime/p256 with 1..6 recipients and every recipient index) and per message length (quick: 0,1,15,16,17,31,32,33,63,64,65,255,256,1023,4096; thorough: 0..4096 stepped; IBE: 0..hash size densely and beyond): encrypt with the real API, then judge (1) round trip = exact message, or refusal at encryption time only for lengths the scheme cannot protect; (2) decryption with every wrong-key class must error (authenticated schemes); (3) every chosen single-bit flip (stratified per region: ephemeral point / header slots / body / tag; U,V,W; all bits for short ciphertexts in thorough) and every chosen truncation must error, never return a plaintext, never panic; anon-set additionally body alteration with the tag recomputed from public data; (4) clear-text scan: no 16-byte aligned block and no >=8-byte run of a high-entropy plaintext occurs in the serialised ciphertext, scanned after encryption and again on the ciphertext object after it was decrypted; (5) inputs intact: after every Encrypt and every Decrypt call (successful or failed) each input object (message, ciphertext bytes / U,V,W / RP,C, public and private keys, identity, anonymity set) is byte-identical to a deep copy taken before the call; (6) repeatable: the same ciphertext object decrypted a second time, and a third time after a failed wrong-key attempt on it, returns the same plaintext (anon-set also: the same buffer handed to a second recipient). distinct = (scheme, instance, length, repetition, check descriptor). non-trivial = every judgement except: scans of plaintexts shorter than 8 bytes, and IBE-CCA wrong-key trials on messages of < 4 bytes (sigma has only len(msg) bytes, see notes)")
 	r.Assume("ecies.Encrypt, ibe.Encrypt* and anon.Encrypt (P-256, edvartime) draw their randomness internally; every oracle is a relation between the inputs and the decryption result and does not depend on that randomness")
 	r.Assume("IBE-CPA is unauthenticated by design: wrong keys and alterations are only required not to panic")
 	r.Assume("IBE ciphertexts have no wire format in the library; U is altered through its MarshalBinary encoding (altered encodings the decoder refuses count as rejected), V and W as byte strings; the clear-text scan runs over enc(U)||V||W")
